@@ -7,6 +7,7 @@ import ast
 from typing import Dict, List, Optional, Set, Tuple
 
 from ..cfg import CFG, path_str
+from ..util import guards_of
 from ..core import AnalysisError, Func, norm, short, walk_no_nested
 
 
@@ -125,6 +126,11 @@ def rule_prototype_chains_acyclic(ctx, rep, rid: str) -> None:
                     fresh = True
             if fresh:
                 rep.ok(rid, key, {"target": "fresh object"})
+                continue
+            # a function object is not part of any prototype chain: its `_prototype` attribute is the
+            # `prototype` PROPERTY, only ever linked into FRESH instances by `new`
+            if isinstance(tgt, ast.Name) and any(pol and norm(t_) == f"isinstance({tgt.id}, JSFunction)" for t_, pol in guards_of(n, f.node)):
+                rep.ok(rid, key, {"target": "prototype property of a function object"})
                 continue
             # existing object: need a cycle walk before
             walk = False
